@@ -76,7 +76,7 @@ def _pgmat(seed):
     return _PG[seed]
 
 
-SUBSET_LABELS = ((3, 0, 2, 5, 1), (0, 1, 2, 3, 4), (7, 4, 9, 1, 6))
+SUBSET_LABELS = ((3, 0, 2, 5, 1, 8), (0, 1, 2, 3, 4, 5), (7, 4, 9, 1, 6, 2))
 REAL_SCALE = (1.0, 0.25, 1.0 / 3.0)
 
 
@@ -104,7 +104,7 @@ def decisions_A(key, tier, seed, slots=1):
     out = []
     if enc == "subset":
         lab = SUBSET_LABELS[seed % 3]
-        ks = CURATED6["subset"] if (big and not T) else (1, 2, 3, 4) + ((5,) if T else ())
+        ks = CURATED6["subset"] if (big and not T) else (1, 2, 3, 4) + ((5, 6) if (T and big) else ((5,) if T else ()))
         for k in ks:
             out.append((list(lab[:k]), "int64"))
         if not big:
@@ -148,8 +148,8 @@ def decisions_A(key, tier, seed, slots=1):
 
 
 def sus_menu_A(tier, slots):
-    """SUS offsets j (offset = d*j*2^-53): all eight in small designs, four (mid, both extremes, a quarter) at 6 slots"""
-    return R.SUS_J if slots < 6 else (2 ** 52, 0, TWO53 - 1, 2 ** 51)
+    """SUS offsets j (offset = d*j*2^-53): all eight, except four (mid, both extremes, a quarter) at 6 slots in the quick tier"""
+    return R.SUS_J if (slots < 6 or tier == "thorough") else (2 ** 52, 0, TWO53 - 1, 2 ** 51)
 
 
 def _estimate(enc, decn, c, p, noff):
@@ -847,7 +847,7 @@ def _guarded_explore(ctx, run, bound, P, case_base):
     except ReplayDivergence as e:
         ctx.violation(P + "nondeterministic-under-scripted-generator",
                       f"re-running select() on identical inputs with identical generator answers took a different path: {e}",
-                      dict(case_base, answers=[]))
+                      dict(case_base, answers=[], explore=bound))
 
 
 def _exc_prefix(e, default):
@@ -1112,7 +1112,7 @@ def run_B_MO(ctx, info, n, front, spec, ndwt, design, vi, answers=None, seed=Non
 
 # --------------------------------------------------------------------------------------
 def run_shard(spec, ctx):
-    ctx.bounds.update({"A_slots_max": 6, "A_decision_len_max": 4 if ctx.tier == "quick" else 5, "A_sus_offsets": len(R.SUS_J)})
+    ctx.bounds.update({"A_slots_max": 6, "A_decision_len_max": 4 if ctx.tier == "quick" else 6, "A_sus_offsets": len(R.SUS_J)})
     if spec[0] == "X":
         run_X(ctx)
     elif spec[0] == "A":
@@ -1187,7 +1187,8 @@ def replay(case, ctx):
         info = next(i for i in discover()[0] if i["cls"] == case["cls"])
         if case["part"] == "B-SO":
             run_B_SO(ctx, info, case["n"], case["t"], tuple(case["ranks"]), case["variant"], tuple(case["design"]), case["wt"], case["opt"],
-                     case["par"], case["nmnp"], answers=case["answers"], seed=case.get("seed"))
+                     case["par"], case["nmnp"], answers=None if case.get("explore") else case["answers"], seed=case.get("seed"),
+                     bound=case.get("explore") or 0)
         else:
             sp = case["spec"]
             spec = (sp[0],) + tuple(tuple(x) for x in sp[1:])
